@@ -189,6 +189,7 @@ type side struct {
 }
 
 type slot struct {
+	tr     string // mode "mixed": rest | grpc
 	cookie string // REST: the cookie of the last session created in this slot
 	sidR   string
 	made   bool
@@ -210,6 +211,7 @@ type Exec struct {
 	cfg   Cfg
 	mode  string
 	R, G  side
+	M     *grpcsvc.Service // mode "mixed": the plain gRPC Service on the REST side's LockServer
 	start time.Time
 	slots map[int]*slot
 	keysR map[int]string
@@ -563,6 +565,19 @@ func (x *Exec) Step(i int, ev Ev) {
 		if both && sl.connG {
 			return // the slot is in use on the gRPC side: a connection is not re-opened
 		}
+		if x.mode == "mixed" && (sl.connG || (sl.tr == "rest" && sl.made)) {
+			return
+		}
+		if x.mode == "mixed" && ev.T == "grpc" {
+			ctx0 := x.M.TagConn(context.Background(), &stats.ConnTagInfo{RemoteAddr: &net.TCPAddr{IP: net.IPv4(127, 0, 0, 1)}})
+			ctx, cancel := context.WithCancel(ctx0)
+			gs, _ := x.R.srv.SessionId(ctx)
+			sl.tr, sl.ctxG, sl.cancel, sl.sidG, sl.connG = "grpc", ctx, cancel, gs, true
+			x.emit("E grpc conn %s", hx(gs))
+			x.stats["op_grpc_conn"]++
+			return
+		}
+		sl.tr = "rest"
 		nTagged := len(x.R.wrap.tagged)
 		ex := serveHTTP(h, "POST", "/session", "", nil)
 		if x.hang(ex) {
@@ -586,6 +601,17 @@ func (x *Exec) Step(i int, ev Ev) {
 			x.emit("G conn %s", hx(gs))
 		}
 	case "delete":
+		if sl := x.slot(ev.S); x.mode == "mixed" && sl.tr == "grpc" {
+			if sl.connG {
+				sl.cancel()
+				synctest.Wait()
+				x.M.HandleConn(sl.ctxG, &stats.ConnEnd{})
+				sl.connG = false
+				x.emit("E grpc disc %s", hx(sl.sidG))
+				x.stats["op_grpc_disc"]++
+			}
+			return
+		}
 		ck := x.cookieFor(ev)
 		ex := serveHTTP(h, "DELETE", "/session", "", ck)
 		if x.hang(ex) {
@@ -598,6 +624,9 @@ func (x *Exec) Step(i int, ev Ev) {
 		x.stats["op_delete"]++
 		x.stats[fmt.Sprintf("delete_status_%d", ex.status)]++
 		sl := x.slot(ev.S)
+		if x.mode == "mixed" && ex.status == 200 {
+			sl.made = false
+		}
 		if both && (ev.Ck == "" || ev.Ck == "own") && sl.connG {
 			sl.cancel()
 			synctest.Wait()
@@ -606,6 +635,13 @@ func (x *Exec) Step(i int, ev Ev) {
 			x.emit("G disc %s", hx(sl.sidG))
 		}
 	case "req":
+		if sl := x.slot(ev.S); x.mode == "mixed" && sl.tr == "grpc" {
+			if sl.connG && ev.Q != "noop" {
+				x.grpcCall(i, ev, sl, x.M, x.keysR, "E grpc", "O")
+				x.stats["op_grpc_"+ev.Q]++
+			}
+			return
+		}
 		ck := x.cookieFor(ev)
 		sl := x.slot(ev.S)
 		name := unhx(ev.Name)
@@ -678,42 +714,7 @@ func (x *Exec) Step(i int, ev Ev) {
 		x.emitEnds()
 		// the same abstract request over gRPC, on the connection that plays this session
 		if both && (ev.Ck == "" || ev.Ck == "own") && sl.connG {
-			keyG := x.resolveKey(ev.Key, x.keysG)
-			switch ev.Q {
-			case "try":
-				r, err := x.G.svc.TryLock(sl.ctxG, &pb.TryLockRequest{Name: name, Size: ev.Size, LockTimeoutSeconds: ev.Lt})
-				if err != nil || r == nil {
-					x.emit("G try %s %s %s %s -", hx(sl.sidG), hx(name), optTok(ev.Size), optTok(ev.Lt))
-					x.emit("P rpcerror %s", hx(fmt.Sprint(err)))
-					break
-				}
-				x.keysG[i] = r.Key
-				x.emit("G try %s %s %s %s %s", hx(sl.sidG), hx(name), optTok(ev.Size), optTok(ev.Lt), hx(r.Key))
-				x.emit("P r lock %s %s %s", b01(r.Locked), hx(r.Key), errTok(r.Error))
-				x.emit("N %s name=%s", errNote(r.Error), hx(r.Name))
-			case "unl":
-				r, err := x.G.svc.Unlock(sl.ctxG, &pb.UnlockRequest{Name: name, Key: keyG})
-				x.emit("G unl %s %s %s", hx(sl.sidG), hx(name), hx(keyG))
-				if err != nil || r == nil {
-					x.emit("P rpcerror %s", hx(fmt.Sprint(err)))
-					break
-				}
-				x.emit("P r unl %s %s", b01(r.Unlocked), errTok(r.Error))
-				x.emit("N %s name=%s", errNote(r.Error), hx(r.Name))
-			case "ren":
-				lt := int32(0)
-				if ev.Lt != nil {
-					lt = *ev.Lt
-				}
-				r, err := x.G.svc.Renew(sl.ctxG, &pb.RenewRequest{Name: name, Key: keyG, LockTimeoutSeconds: lt})
-				x.emit("G ren %s %s %d", hx(name), hx(keyG), lt)
-				if err != nil || r == nil {
-					x.emit("P rpcerror %s", hx(fmt.Sprint(err)))
-					break
-				}
-				x.emit("P r lock %s %s %s", b01(r.Locked), hx(r.Key), errTok(r.Error))
-				x.emit("N %s name=%s", errNote(r.Error), hx(r.Name))
-			}
+			x.grpcCall(i, ev, sl, x.G.svc, x.keysG, "G", "P")
 		}
 	case "adv":
 		x.emit("E adv %d", ev.Dt)
@@ -747,6 +748,48 @@ func (x *Exec) Step(i int, ev Ev) {
 				x.emit("P %s", o)
 			}
 		}
+	}
+}
+
+// grpcCall performs the request of ev on the gRPC Service svc with the connection context of sl and writes the
+// event line (prefix ePre) and its outputs (prefix oPre).
+func (x *Exec) grpcCall(i int, ev Ev, sl *slot, svc *grpcsvc.Service, keys map[int]string, ePre, oPre string) {
+	name := unhx(ev.Name)
+	key := x.resolveKey(ev.Key, keys)
+	switch ev.Q {
+	case "try":
+		r, err := svc.TryLock(sl.ctxG, &pb.TryLockRequest{Name: name, Size: ev.Size, LockTimeoutSeconds: ev.Lt})
+		if err != nil || r == nil {
+			x.emit("%s try %s %s %s %s -", ePre, hx(sl.sidG), hx(name), optTok(ev.Size), optTok(ev.Lt))
+			x.emit("%s rpcerror %s", oPre, hx(fmt.Sprint(err)))
+			return
+		}
+		keys[i] = r.Key
+		x.emit("%s try %s %s %s %s %s", ePre, hx(sl.sidG), hx(name), optTok(ev.Size), optTok(ev.Lt), hx(r.Key))
+		x.emit("%s r lock %s %s %s", oPre, b01(r.Locked), hx(r.Key), errTok(r.Error))
+		x.emit("N %s name=%s", errNote(r.Error), hx(r.Name))
+	case "unl":
+		r, err := svc.Unlock(sl.ctxG, &pb.UnlockRequest{Name: name, Key: key})
+		x.emit("%s unl %s %s %s", ePre, hx(sl.sidG), hx(name), hx(key))
+		if err != nil || r == nil {
+			x.emit("%s rpcerror %s", oPre, hx(fmt.Sprint(err)))
+			return
+		}
+		x.emit("%s r unl %s %s", oPre, b01(r.Unlocked), errTok(r.Error))
+		x.emit("N %s name=%s", errNote(r.Error), hx(r.Name))
+	case "ren":
+		lt := int32(0)
+		if ev.Lt != nil {
+			lt = *ev.Lt
+		}
+		r, err := svc.Renew(sl.ctxG, &pb.RenewRequest{Name: name, Key: key, LockTimeoutSeconds: lt})
+		x.emit("%s ren %s %s %d", ePre, hx(name), hx(key), lt)
+		if err != nil || r == nil {
+			x.emit("%s rpcerror %s", oPre, hx(fmt.Sprint(err)))
+			return
+		}
+		x.emit("%s r lock %s %s %s", oPre, b01(r.Locked), hx(r.Key), errTok(r.Error))
+		x.emit("N %s name=%s", errNote(r.Error), hx(r.Name))
 	}
 }
 
@@ -809,6 +852,9 @@ func RunHistory(h *History, stateDir string, curPath string, gen func(x *Exec, i
 	var err error
 	if x.R, err = bootRest(h.Cfg, pr); err != nil {
 		return append(head, "B boot-error "+hx(err.Error()), "X"), x.stats, "boot: " + err.Error()
+	}
+	if h.Mode == "mixed" {
+		x.M = grpcsvc.NewService(x.R.srv)
 	}
 	if h.Mode == "c15" {
 		if x.G, err = bootGrpc(h.Cfg, pg); err != nil {
